@@ -2,3 +2,4 @@ pub mod c18;
 pub mod c17;
 pub mod c16;
 pub mod c06;
+pub mod c03;
